@@ -248,3 +248,42 @@ def equivariance_defect(apply, xb, grp, D, flags, lead=1, shifts_list=()):
             if e > worst[0]:
                 worst = (e, ("shift", sh_in), t)
     return worst, moved, nonzero
+
+
+def model_equivariance(model, xb, in_order, grp, D, flags, monitor=True):
+    """worst relative defect of model(g.x) vs g.model(x) over grp, at the output and (lock step) at every layer.
+    Returns dict(e, where, g, t, moved, nonzero)."""
+    def forward(b, fl):
+        if monitor:
+            with Monitor() as mon:
+                y = model(to_mi(b, D, fl, order=in_order))
+                y = y[0] if isinstance(y, tuple) else y
+                tr = mon.take()
+            return np_blocks(y), [(n, np_blocks(m)) for n, m in tr]
+        y = model(to_mi(b, D, fl, order=in_order))
+        y = y[0] if isinstance(y, tuple) else y
+        return np_blocks(y), []
+
+    y0, tr0 = forward(xb, flags)
+    w = {"e": 0.0, "where": None, "g": None, "t": None, "moved": False, "nonzero": False}
+
+    def upd(e, where, g, t):
+        if e > w["e"]:
+            w.update(e=e, where=where, g=g, t=t)
+
+    for g in grp:
+        yg, trg = forward(act_blocks(xb, g, D), perm_axes(flags, g))
+        exp = act_blocks(y0, g, D)
+        for t in exp:
+            upd(relerr(yg[t], exp[t]) if t in yg else np.inf, "output", g, t)
+            if not np.array_equal(exp[t], y0[t]):
+                w["moved"] = True
+            w["nonzero"] = w["nonzero"] or bool(np.any(y0[t] != 0))
+        if len(trg) == len(tr0):
+            for i, ((n0, b0), (n1, b1)) in enumerate(zip(tr0, trg)):
+                e0 = act_blocks(b0, g, D)
+                for t in e0:
+                    upd(relerr(b1[t], e0[t]) if t in b1 else np.inf, f"step{i}:{n0}", g, t)
+        else:
+            upd(np.inf, "trace-length", g, None)
+    return w
